@@ -20,6 +20,7 @@ type PackagesFacade struct {
 
 	fileSet       *token.FileSet
 	files         map[string]*ast.File         // filename → *ast.File
+	sourceFiles   map[string]struct{}          // filenames matched by the configured globs
 	fileToPackage map[string]*packages.Package // filename → owning *packages.Package
 
 	packagesCache  map[string]*packages.Package // pkgPath → *packages.Package
@@ -33,6 +34,7 @@ func NewPackagesFacade(config PackageFacadeConfig) (PackagesFacade, error) {
 		fileSet: token.NewFileSet(),
 
 		files:         make(map[string]*ast.File),
+		sourceFiles:   make(map[string]struct{}),
 		fileToPackage: make(map[string]*packages.Package),
 
 		packagesCache:  make(map[string]*packages.Package),
@@ -51,8 +53,14 @@ func (facade *PackagesFacade) GetAllSourceFiles() []*ast.File {
 	// Return the files in file name order so that anything derived from the visiting order
 	// (e.g. the order of a controller's routes when its methods are spread over several files)
 	// does not depend on Go's randomized map iteration order
+	//
+	// Only the files matched by the globs are source files; files of packages that were loaded on demand
+	// (to resolve a type) must not start being visited by a later analysis on the same facade
 	fileNames := make([]string, 0, len(facade.files))
 	for fileName := range facade.files {
+		if _, isSource := facade.sourceFiles[fileName]; !isSource {
+			continue
+		}
 		fileNames = append(fileNames, fileName)
 	}
 	slices.Sort(fileNames)
@@ -108,6 +116,10 @@ func (facade *PackagesFacade) initWithGlobs() error {
 
 			pkgPathsToLoad.Add(filepath.Dir(pkgPath))
 		}
+	}
+
+	for absSourcePath := range matchedAbsPaths {
+		facade.sourceFiles[absSourcePath] = struct{}{}
 	}
 
 	err := facade.loadPackagesFiltered(pkgPathsToLoad.ToSlice(), matchedAbsPaths)
